@@ -114,6 +114,13 @@ CHECKS = {
         "grid values and depth are the bound; random weights seeded by VERIF_SEED; miniature widths; pretrained weights unavailable offline",
         "DESIGN.md §3 C14",
     ),
+    "C20": (
+        "model_checking",
+        "exhaustive enumeration of builder argument deviations (singles, pairs in interacting groups, presets x heads, every ordered augmentation list) and single-field invalid values against a docstring reference table + schema defaults",
+        "Every single-argument deviation and every pair inside the interacting groups of the three builders, every backbone preset x head, every ordered list of augmentation names (65 intensity, 326 geometric) and every single-field invalid value are run through the real builders, TrainingJobConfig.to_sleap_nn_cfg, verify_training_cfg (twice) and a YAML file round trip; each leaf must equal the supplied argument or the schema default (attrs introspection), named augmentations must be enabled regardless of order, validators must reject. Complete within the stated deviation bound.",
+        "deviation order bound (pairs within groups; thorough adds triples and the full aug cross product); reference table written from docstrings/docs",
+        "DESIGN.md §3 C20",
+    ),
 }
 
 NOT_YET = {}
